@@ -432,6 +432,10 @@ pub fn body<D: Dd>(c: &DdCase) {
             if bounded && count > c.width {
                 panic!("SYMX-LABEL[C13:layer-width] {} states expanded in layer {} with max_width {}", count, depth, c.width);
             }
+            if bounded {
+                // structural obligation: holds for every cost vector following this path
+                oblige("C13:layer-width", Cond::TRUE);
+            }
         }
     }
 
